@@ -156,6 +156,8 @@ CURATED = [
     ("only-pass", "pass\n"),
     ("docstring", '"""doc"""\nx = 1\n'),
     ("walrus-in-while-test", "it = iter([1, 2, 0, 3])\nwhile (x := next(it)):\n    print(x)\n"),
+    ("walrus-in-for-iter", "for x in (y := [1, 2]):\n    print(x, y)\n"),
+    ("decorated-class-2", "def d(n):\n    def w(c):\n        c.n = n\n        return c\n    return w\n@d(1)\n@d(2)\nclass A: pass\nprint(A.n)\n"),
     ("import-dotted", "import os.path\nprint(os.path.sep)\n"),
     ("for-assign-target", "for i in range(3):\n    i = i + 1\n    print(i)\n"),
     ("underscore-while", "_ = 3\nwhile _ > 0:\n    _ -= 1\nprint(_)\n"),
@@ -228,8 +230,16 @@ def _walrus_in_loop_in_class_or_comp(tree):
     return False
 
 
+def _walrus_in_for_iter(tree):
+    for n in ast.walk(tree):
+        if isinstance(n, ast.For) and any(isinstance(x, ast.NamedExpr) for x in ast.walk(n.iter)):
+            return True
+    return False
+
+
 SHAPES = {
     "walrus_in_while_test": _walrus_in_while_test,
+    "walrus_in_for_iter": _walrus_in_for_iter,
 }
 
 
